@@ -251,6 +251,7 @@ var checks = []Check{
 		Rule:        "each evaluation is a distinct frame or a distinct (request sequence, drop point) history",
 		Assumptions: []string{"Go compiler and runtime", "kernel unix stream sockets (abstract namespace)", "the protocol is request/reply, so outcomes do not depend on goroutine timing; a 30 s read deadline only detects a hung hand-over"},
 		Jobs: []Job{
+			{Pkg: "proc", Scenarios: []string{"C09/listener"}, Shards: 16, QuickS: 120, ThoroughS: 240}, // the drain step itself: a listener told to drain never serves a later connection, bound or not
 			{Pkg: "cmd/samaritan/hotrestart", Scenarios: []string{"C17/frames"}, Shards: 12, QuickS: 90, ThoroughS: 240},
 			{Pkg: "cmd/samaritan/hotrestart", Scenarios: []string{"C17/handover"}, Shards: 8, QuickS: 90, ThoroughS: 240},
 		},
